@@ -268,19 +268,22 @@ Definition within (strict : bool) (tn td xn xd yn yd : Z) : bool :=
 (* ------------------------------------------------------------------------------------------------ *)
 (* inputs on which the unchanged implementation is known to violate C02 (guards of C02_partial)       *)
 
-Definition is_v26 (v : variant) : bool :=
-  match v with
-  | V26AddressedStructured | V26BroadcastStructured | V26AddressedUnstructured | V26BroadcastUnstructured => true
+(* (a) binary data shorter than its field although another field follows it (type 26: the communication state
+   comes directly after the data actually sent) *)
+Definition short_bytes (w : nat) (x : sval) : bool :=
+  match x with
+  | SBytes bs => negb (List.length bs =? 0)%nat && (List.length bs <? ceil8 w)%nat
   | _ => false
   end.
-
-(* (a) type 26 whose binary data is shorter than the field: the communication state follows it directly *)
+Definition ends_message (v : variant) (f : sfield) : bool := (s_off f + s_width f =? nominal v)%nat.
 Definition c02_short_data26 (v : variant) (a : assignment) : bool :=
-  is_v26 v &&
-  match lookup_s "data"%string a, find_field "data"%string (spec_layout v) with
-  | Some (SBytes bs), Some f => negb (List.length bs =? 0)%nat && (List.length bs <? ceil8 (s_width f))%nat
-  | _, _ => false
-  end.
+  existsb (fun kx => match find_field (fst kx) (spec_layout v) with
+                     | Some f => match s_kind f with
+                                 | KD => negb (ends_message v f) && short_bytes (s_width f) (snd kx)
+                                 | _ => false
+                                 end
+                     | None => false
+                     end) a.
 
 (* (b) types 2, 3, 11, 13 when the caller does not pass msg_type itself *)
 Definition c02_inherited_type (v : variant) (a : assignment) : bool :=
@@ -300,7 +303,7 @@ Definition c02_empty_varlen (v : variant) (a : assignment) : bool :=
   existsb (fun kx => match find_field (fst kx) (spec_layout v) with
                      | Some f => var_len v f && empty_varlen_kind (s_kind f) (snd kx)
                                  (* the name extension of type 21 is padded with '@' by the encoder and comes back '' *)
-                                 && negb (match v with V21 => true | _ => false end)
+                                 && negb (match v, s_kind f with V21, KT => true | _, _ => false end)
                      | None => false
                      end) a.
 
